@@ -43,6 +43,11 @@ pub enum Mutation {
     LogField { pos: u16, val: u8 },
     /// append bytes after the footer
     Append { len: u16, seed: u32 },
+    /// a field of the final commit footer (0 toc_len, 1 generation) := interesting value; the magic stays
+    FooterField { field: u8, val: u8, raw: u64 },
+    /// the 8-byte entry count at the head of an index track (0 time index, 1 first lexical segment,
+    /// 2 vector index, 3 sketch track) := interesting / huge value; the TOC and its checksums stay valid
+    TrackCount { which: u8, val: u8, raw: u64 },
 }
 
 #[derive(Debug, Clone, Serialize, Deserialize)]
@@ -218,6 +223,41 @@ fn mutate(mut bytes: Vec<u8>, other: &[u8], muts: &[Mutation], classes: &mut Vec
             Mutation::Append { len: l, seed } => {
                 bytes.extend_from_slice(&gen::gen_blob(*seed, *l as u32, BlobKind::Random));
                 classes.push("trailing_bytes");
+            }
+            Mutation::FooterField { field, val, raw } => {
+                if let Some(fs) = find_last_valid_footer(&bytes) {
+                    let fo = fs.footer_offset as usize;
+                    let at = if field % 2 == 0 { fo + 8 } else { fo + 48 };
+                    if at + 8 <= bytes.len() {
+                        let v = match val % 14 {
+                            12 => (fo as u64).saturating_add(1 + raw % 64), // just beyond its own offset
+                            13 => 1u64 << (56 + raw % 8),
+                            _ => interesting(*val, *raw, len),
+                        };
+                        bytes[at..at + 8].copy_from_slice(&v.to_le_bytes());
+                        classes.push("footer_field");
+                    }
+                }
+            }
+            Mutation::TrackCount { which, val, raw } => {
+                let target = find_last_valid_footer(&bytes).and_then(|fs| Toc::decode(fs.toc_bytes).ok()).and_then(|toc| match which % 4 {
+                    0 => toc.time_index.as_ref().map(|m| m.bytes_offset + 4),
+                    1 => toc.segment_catalog.tantivy_segments.first().map(|s| s.common.bytes_offset),
+                    2 => toc.indexes.vec.as_ref().filter(|m| m.bytes_length > 0).map(|m| m.bytes_offset),
+                    _ => toc.sketch_track.as_ref().map(|m| m.bytes_offset + 4),
+                });
+                if let Some(at) = target {
+                    let at = at as usize;
+                    if at + 8 <= bytes.len() {
+                        let v = match val % 14 {
+                            12 => 1u64 << (60 + raw % 4),
+                            13 => u64::MAX - raw % 16,
+                            _ => interesting(*val, *raw, len),
+                        };
+                        bytes[at..at + 8].copy_from_slice(&v.to_le_bytes());
+                        classes.push("track_count_field");
+                    }
+                }
             }
         }
     }
@@ -480,11 +520,13 @@ fn mutation() -> impl Strategy<Value = Mutation> {
         1 => any::<u32>().prop_map(|at| Mutation::Splice { at }),
         3 => (any::<u16>(), 0u8..12).prop_map(|(pos, val)| Mutation::LogField { pos, val }),
         1 => (0u16..200, any::<u32>()).prop_map(|(len, seed)| Mutation::Append { len, seed }),
+        3 => (0u8..2, 0u8..14, any::<u64>()).prop_map(|(field, val, raw)| Mutation::FooterField { field, val, raw }),
+        3 => (0u8..4, 0u8..14, any::<u64>()).prop_map(|(which, val, raw)| Mutation::TrackCount { which, val, raw }),
     ]
 }
 
 pub fn build(ctx: &Ctx) -> Vec<Box<dyn Arm>> {
-    ctx.rule("files derived from valid seed memories (0..4 documents: binary, text, chunked, fact sentences; embeddings; one or two commits; optionally copied while the handle is alive so that log records are pending) by 1..3 structured mutations: bit flips, header fields (footer/log geometry) set to boundary values, a scalar of the DECODED table of contents edited and the TOC re-encoded with checksum, footer hash and header checksum re-sealed (so the code behind the checksums is reached; a second variant aims only at offset/length/count fields with huge values), truncation, garbage runs, splices of two files, 4/8-byte fields inside the log region, trailing bytes; plus purely random files with and without a valid header. Each file goes to a child process that runs open_read_only (+ every read API), verify(deep), doctor_plan, open (+ reads), doctor on fresh copies; oracle: every operation returns Ok or Err: no panic (caught and reported by location), no abort (missing END line), no termination failure (60 s limit, confirmed with a doubled limit before it counts), no operation moves more than 512 MiB through read/write calls (the deterministic stand-in for the time limit: a copy loop driven by a length field of the file; RLIMIT_FSIZE 768 MiB keeps the disk safe meanwhile); non-trivial = the file still passes header decoding");
+    ctx.rule("files derived from valid seed memories (0..4 documents: binary, text, chunked, fact sentences; embeddings; one or two commits; optionally copied while the handle is alive so that log records are pending) by 1..3 structured mutations: bit flips, header fields (footer/log geometry) set to boundary values, a scalar of the DECODED table of contents edited and the TOC re-encoded with checksum, footer hash and header checksum re-sealed (so the code behind the checksums is reached; a second variant aims only at offset/length/count fields with huge values), truncation, garbage runs, splices of two files, 4/8-byte fields inside the log region, trailing bytes, the length / generation field of the final commit footer, the entry count at the head of an index track (time index, lexical segment, vector index, sketch track); plus purely random files with and without a valid header. Each file goes to a child process that runs open_read_only (+ every read API), verify(deep), doctor_plan, open (+ reads), doctor on fresh copies; oracle: every operation returns Ok or Err: no panic (caught and reported by location), no abort (missing END line), no termination failure (60 s limit, confirmed with a doubled limit before it counts), no operation moves more than 512 MiB through read/write calls (the deterministic stand-in for the time limit: a copy loop driven by a length field of the file; RLIMIT_FSIZE 768 MiB keeps the disk safe meanwhile); non-trivial = the file still passes header decoding");
     ctx.assume("time limit 60 s per file of <= 200 KiB on this machine; a timeout that does not reproduce is recorded as slow_once_not_reproduced, never as a violation");
     let t = ctx.tier;
     vec![arm_with(
